@@ -7,8 +7,9 @@ def run(ctx):
     thorough = ctx.tier == "thorough"
     ctx.assumptions += [
         "the uniform variate is injected through the verif-only Categorical::with_rng and a crafted xoshiro256++ state",
-        "variates are 0, 1-ulp, grid midpoints and thresholds +-2^-20 (f64) / +-2^-14 (f32): a returned index of probability "
-        "zero is always a violation; *which* positive-probability neighbour is returned exactly at a threshold is not asserted",
+        "variates are 0, 1-ulp, grid midpoints, thresholds +-2^-20 (f64) / +-2^-14 (f32), and the implementation's own floating-point "
+        "cumulative sum itself when it is a representable variate (else the two variates enclosing it): a returned index of probability "
+        "zero is always a violation; exactly at a threshold either positive-probability neighbour is accepted (closed intervals of Categorical.tla)",
         "'distributed according to probs' is decided as the deterministic quadrature statement of Categorical.tla "
         "(over the midpoint grid each index is returned K p_i +- 1 times), not statistically",
     ]
@@ -23,6 +24,9 @@ def run(ctx):
             raise vlib.ToolError("%s produced %d cases" % (mod, len(cases)))
         res = ctx.harness(["c16", "replay", ctx.write_ndjson("cat_%s.ndjson" % mod, cases)], timeout=1800)[-1]
         ctx.cov["evaluations"] += res["evaluations"]
+        ctx.cov["exact_threshold_variates"] = ctx.cov.get("exact_threshold_variates", 0) + res["exact_thresholds"]
+        if res["exact_thresholds"] == 0:
+            raise vlib.ToolError("%s: no variate hit a cumulative sum exactly" % mod)
         ctx.cov["traces_validated_against_impl"] += len(cases)
         ctx.cov["distinct_nontrivial"] += sum(1 for c in cases if any(x == 0 for x in c["w"]) and len(c["w"]) >= 2)
         for m in res["bad"]:
@@ -38,7 +42,7 @@ def run(ctx):
             rs = ctx.harness(["c16", "replay", ctx.write_ndjson("cat_self.ndjson", [c])])[-1]
             ctx.selftest("replay: wrong allowed set for r = 0", len(rs["bad"]) > 0)
     ctx.cov["rule"] = ("every weight vector in the bounds (TLC, quadrature and non-emptiness theorems checked on each) and LCG-generated vectors "
-                       "up to length 64, x {f32,f64} x 3 unnormalised scalings x variates {0, 1-ulp, midpoint grid, each threshold +-margin}; "
+                       "up to length 64, x {f32,f64} x 3 unnormalised scalings x variates {0, 1-ulp, midpoint grid, each threshold +-margin and exactly}; "
                        "non-trivial = vectors containing a zero weight")
     ctx.cov["exhaustive"] = True
 
